@@ -717,6 +717,11 @@ func checkLocationPrinter(c *Ctx, bl, pl *ssa.Function) {
 	if nItoa == 0 {
 		c.undecided("COORD", "printer coordinates", bl.Pos(), "no Itoa of Start/End found in the printer")
 	}
+	// the printer leaves the location it prints alone (a by-value argument still shares its SubLocations
+	// backing array with the caller)
+	if ws := apiArgWrites(bl); true {
+		c.check(len(ws) == 0, "TERM-PRINT", "the printer does not modify the location it is given", bl.Pos(), "no store reaches memory the caller still holds", "printing a location changes it: "+strings.Join(ws, "; ")+": after one write the structure no longer denotes the same bases (e.g. Complement cleared on join operands)")
+	}
 	// forms
 	tb := newDeepTB(bl)
 	type alt struct {
